@@ -216,10 +216,23 @@ func (h *c17Run) c17xPresentReader(rd *c17xReader, sc c17xScript) (io.Reader, fu
 	case "b":
 		return bytes.NewReader(data), func() {}, nil
 	case "f":
-		p := filepath.Join(h.dir, fmt.Sprintf("src%d", h.nsrc))
-		h.nsrc++
-		if err := os.WriteFile(p, data, 0o600); err != nil {
-			return nil, nil, err
+		// the snapshot as a file on the caller's disk: ONE file per snapshot, written once and handed in again by
+		// every later restore of the same snapshot (a restore must leave the caller's file alone, and restoring
+		// it a second time - after the database has been written to - must give the snapshot again)
+		key := fmt.Sprintf("%d:%08x", len(data), c17xFnv(string(data)))
+		if h.srcOf == nil {
+			h.srcOf = map[string]string{}
+		}
+		p, ok := h.srcOf[key]
+		if !ok {
+			p = filepath.Join(h.dir, fmt.Sprintf("src%d", h.nsrc))
+			h.nsrc++
+			if err := os.WriteFile(p, data, 0o600); err != nil {
+				return nil, nil, err
+			}
+			h.srcOf[key] = p
+		} else {
+			h.stats["op_restorer_f_same_file_again"]++
 		}
 		f, err := os.Open(p)
 		if err != nil {
@@ -464,7 +477,7 @@ func (h *c17Run) doRestore(caseTok string, refusable bool, restore func()) {
 		if stragglers {
 			h.dead = true
 		}
-		for end := time.Now().Add(2 * time.Second); want < wantAll && !h.dead && atomic.LoadInt64(&h.ldone) < wantAll && time.Now().Before(end); {
+		for end := time.Now().Add(2 * time.Second); want < wantAll && !h.dead && g.pending() > 0 && time.Now().Before(end); {
 			time.Sleep(200 * time.Microsecond)
 		}
 	}()
